@@ -61,7 +61,8 @@ type KBProfile struct {
 	QuickOther int // random cases on each other engine in the quick tier
 	Thorough   int
 	Search     int
-	Exhaustive bool // thorough: all interleavings of 2 writers x 2 ops
+	Exhaustive bool                // thorough: all interleavings of 2 writers x 2 ops
+	WrapCoq    func(string) string // optional constructor around the sched_case term
 }
 
 func genReq(r *Rand, nkeys int, t, j int, malformed int) KReq {
@@ -207,7 +208,11 @@ func KBDrive(w *Writer, args Args, prof KBProfile) {
 			w.Fail(ImplFailure{CaseID: w.Len(), What: "a create acknowledged at quiescence is not returned by List(0)", Case: c.JSON()})
 		}
 		triv := !c.Interleaved()
-		w.Add(Case{Coq: c.Coq(), JSON: c.JSON(), Kind: kind + "/" + e, Trivial: triv, Outcomes: c.Outcomes()})
+		coq := c.Coq()
+		if prof.WrapCoq != nil {
+			coq = prof.WrapCoq(coq)
+		}
+		w.Add(Case{Coq: coq, JSON: c.JSON(), Kind: kind + "/" + e, Trivial: triv, Outcomes: c.Outcomes()})
 		return c
 	}
 	for _, e := range engines {
@@ -260,4 +265,97 @@ func exhaustivePrograms() [][][]KReq {
 		{{{Op: OpCreate, Val: v("a")}, {Op: OpDelete, Sym: SymZero}}, {{Op: OpCreate, Val: v("b")}, {Op: OpUpdate, Val: v("c"), Sym: SymNear}}},
 		{{{Op: OpUpdate, Val: v("a"), Sym: SymCorrect}, {Op: OpDelete, Sym: SymNear}}, {{Op: OpDelete, Sym: SymCorrect}, {Op: OpCreate, Val: v("b")}}},
 	}
+}
+
+// ---------- read cases for C02: sequencer parked, writes stored but not yet readable ----------
+
+type KRead struct {
+	IsList bool
+	Key    int
+	Rev    uint64
+	Err    bool
+	Hdr    uint64
+	Kvs    []KReadKv
+}
+type KReadKv struct {
+	Key int
+	Val []byte
+	Rev uint64
+}
+
+type KReadCase struct {
+	Engine string
+	Cidx0  bool
+	D0     uint64
+	NKeys  int
+	Init   []KState
+	Writes []KReq
+	WResps []KResp
+	Reads  []KRead
+}
+
+func (c *KReadCase) Coq() string {
+	keys := make([]string, c.NKeys)
+	init := make([]string, c.NKeys)
+	for i := 0; i < c.NKeys; i++ {
+		keys[i] = N(uint64(i))
+		init[i] = Pair(N(uint64(i)), c.Init[i].Coq())
+	}
+	ws := make([]string, len(c.Writes))
+	for i := range c.Writes {
+		ws[i] = Pair(c.Writes[i].Coq(), c.WResps[i].Coq())
+	}
+	rs := make([]string, len(c.Reads))
+	for i, r := range c.Reads {
+		q := App("RdGet", N(uint64(r.Key)), N(r.Rev))
+		if r.IsList {
+			q = App("RdList", N(r.Rev))
+		}
+		resp := "RdErr"
+		if !r.Err {
+			kvs := make([]string, len(r.Kvs))
+			for j, kv := range r.Kvs {
+				kvs[j] = Pair(Pair(N(uint64(kv.Key)), Bytes(kv.Val)), N(kv.Rev))
+			}
+			resp = App("RdOk", N(r.Hdr), List(kvs))
+		}
+		rs[i] = Pair(q, resp)
+	}
+	return App("C2Read", App("Build_read_case", Bool(c.Cidx0), N(c.D0), List(keys), List(init), List(ws), List(rs)))
+}
+
+func (c *KReadCase) JSON() interface{} {
+	ws := []interface{}{}
+	for i := range c.Writes {
+		ws = append(ws, map[string]interface{}{"req": c.Writes[i].JSON(), "resp": c.WResps[i].JSON()})
+	}
+	rs := []interface{}{}
+	for _, r := range c.Reads {
+		kvs := []interface{}{}
+		for _, kv := range r.Kvs {
+			kvs = append(kvs, map[string]interface{}{"key": kv.Key, "val": string(kv.Val), "rev": kv.Rev})
+		}
+		op := "get"
+		if r.IsList {
+			op = "list"
+		}
+		rs = append(rs, map[string]interface{}{"op": op, "key": r.Key, "rev": r.Rev, "err": r.Err, "hdr": r.Hdr, "kvs": kvs})
+	}
+	init := []interface{}{}
+	for _, k := range c.Init {
+		init = append(init, k.JSON())
+	}
+	return map[string]interface{}{"engine": c.Engine, "d0": c.D0, "init": init, "writes_with_sequencer_parked": ws, "reads": rs}
+}
+
+// F1 tells whether the case shows a List answer carrying data newer than its header.
+func (c *KReadCase) F1() bool {
+	for _, r := range c.Reads {
+		for _, kv := range r.Kvs {
+			if kv.Rev > r.Hdr {
+				return true
+			}
+		}
+	}
+	return false
 }
